@@ -70,3 +70,72 @@ F!(c16_filter_2_2, 2, 2);
 //@ harness: c16_filter_3_2 props=C16 tier=thorough required=no class=functional covers=2 mem=16 timeout=900 est=600
 //@ bounds: 3-digit message code, listed 2-digit code (possibly a prefix of it): never shown
 F!(c16_filter_3_2, 3, 2);
+
+// ---- unit level: match_error_code on stack strings (no heap, no iterator adaptors over Vec<String>) ----
+fn code_match<const M: usize, const F: usize>() {
+    let mut mb = [b' '; 16];
+    mb[0] = b'0';
+    mb[1] = b'x';
+    mb[2] = b'1';
+    mb[3] = b':';
+    mb[4] = b' ';
+    mb[5] = b'[';
+    mb[6] = b'E';
+    let mut md = [0u8; M];
+    let mut fd = [0u8; F];
+    let mut i = 0;
+    while i < M {
+        md[i] = digit();
+        mb[7 + i] = md[i];
+        i += 1;
+    }
+    mb[7 + M] = b']';
+    mb[8 + M] = b' ';
+    mb[9 + M] = b'x';
+    let mut i = 0;
+    while i < F {
+        fd[i] = digit();
+        i += 1;
+    }
+    let msg = unsafe { core::str::from_utf8_unchecked(&mb[..10 + M]) };
+    let fstr = unsafe { core::str::from_utf8_unchecked(&fd[..]) };
+    let mut mc = msg.chars();
+    let pos = mc.position(|c| c == '[');
+    assert!(pos == Some(5));
+    let r = match_error_code(msg, fstr.chars(), mc, 5);
+    let mut equal = M == F;
+    let mut i = 0;
+    while i < M && i < F {
+        equal &= md[i] == fd[i];
+        i += 1;
+    }
+    assert!(r == equal, "match_error_code is true iff the message's error code EQUALS the listed code");
+    kani::cover!(r || M != F, "match");
+    kani::cover!(!r, "no match");
+}
+
+macro_rules! M {
+    ($name:ident, $m:literal, $f:literal) => {
+        #[kani::proof]
+        #[kani::unwind(14)]
+        fn $name() {
+            code_match::<$m, $f>();
+        }
+    };
+}
+
+//@ harness: c16_match_2_2 props=C16 tier=quick class=functional covers=2 mem=16 timeout=1500 est=300
+//@ bounds: match_error_code on "0x1: [Edd] x" (arbitrary 2 digits) vs a listed code of arbitrary 2 digits: true iff equal
+M!(c16_match_2_2, 2, 2);
+//@ harness: c16_match_3_2 props=C16 tier=quick class=functional covers=2 mem=16 timeout=1500 est=300
+//@ bounds: 3-digit message code vs listed 2-digit code (possibly its prefix): never matches
+M!(c16_match_3_2, 3, 2);
+//@ harness: c16_match_2_3 props=C16 tier=quick class=functional covers=2 mem=16 timeout=1500 est=300
+//@ bounds: 2-digit message code vs listed 3-digit code (the message code possibly its prefix): never matches
+M!(c16_match_2_3, 2, 3);
+//@ harness: c16_match_4_4 props=C16 tier=thorough class=functional covers=2 mem=16 timeout=1500 est=300
+//@ bounds: 4-digit codes ([E9001]-style): true iff equal
+M!(c16_match_4_4, 4, 4);
+//@ harness: c16_match_3_3 props=C16 tier=thorough class=functional covers=2 mem=16 timeout=1500 est=300
+//@ bounds: 3-digit codes: true iff equal
+M!(c16_match_3_3, 3, 3);
